@@ -80,3 +80,24 @@ def from_case(c):
         langs.append((LANG_TAGS[k], ov))
     names = {NAME_ID0 + f: lab["u32"] for f, lab in enumerate(c["labels"])}
     return {"feat_hex": feat_table(defs).hex(), "sill_hex": sill_table(langs).hex(), "name_hex": name_table(names).hex()}
+
+
+def name_table_dual(ids):
+    """Name table with Unicode-platform (0,3) records for every id and Windows (3,1) records for every second id
+       (labels that exist only under the Unicode platform)."""
+    recs, data = [], b""
+    def add(pid, eid, lid, nid, text):
+        nonlocal data
+        sdata = utf16be([ord(c) for c in text])
+        recs.append((pid, eid, lid, nid, len(sdata), len(data)))
+        data += sdata
+    for i in sorted(ids):
+        add(0, 3, 0, i, "U%d" % i)
+    for k, i in enumerate(sorted(ids)):
+        if k % 2 == 0:
+            add(3, 1, 0x409, i, "W%d" % i)
+    recs.sort()
+    out = struct.pack(">HHH", 0, len(recs), 6 + 12 * len(recs))
+    for r in recs:
+        out += struct.pack(">HHHHHH", *r)
+    return out + data
